@@ -68,6 +68,9 @@ def parseStmt (t : String) : Option Stmt :=
   | ["tkg", sig, ms, n] => do pure (.tk true sig (← ms.toNat?) (← n.toNat?))
   | ["ts", sig, n] => n.toNat?.map (.ts true sig)
   | ["tsn", sig, n] => n.toNat?.map (.ts false sig)
+  | "tso" :: sig :: n :: ks => if ks.isEmpty then none else do
+      let _ ← ks.mapM parseWOp
+      n.toNat?.map (.ts true sig)
   | ["ti"] => some .ti
   | ["gj", k] => k.toNat?.map .gj
   | ["wx"] => some .wx
